@@ -310,7 +310,7 @@ def main(tier, seed):
     lib.build_coq()
     lib.build_driver()
     lib.build_harness()
-    n = lib.ncases(120 if tier == "quick" else 12000)
+    n = lib.ncases(180 if tier == "quick" else 12000)
     rng = random.Random(seed)
     d = lib.casedir(PID)
     insts = [c for c in lib.load_corpus_cases(PID)]
